@@ -22,7 +22,7 @@ ASSUMPTIONS = [
 def image(draw, tier):
     hi = 24 if tier == "quick" else 40
     shape = draw(gen.shape2(1, hi))
-    kind = draw(st.sampled_from(["blob", "points", "noise", "const"]))
+    kind = draw(st.sampled_from(["blob", "points", "noise", "const", "int_counts"]))
     k = draw(st.integers(0, 2**31 - 1))
     rng = np.random.default_rng(k)
     m, n = shape
@@ -38,6 +38,10 @@ def image(draw, tier):
             img[rng.integers(0, m), rng.integers(0, n)] += rng.uniform(0.5, 5.0)
     elif kind == "noise":
         img = rng.uniform(0, 1, size=shape)
+    elif kind == "int_counts":
+        img = rng.integers(0, 50, size=shape)          # integer-typed frame
+        if img.sum() == 0:
+            img.flat[0] = 3
     else:
         img = np.full(shape, rng.uniform(0.5, 2.0))
     return img, kind
